@@ -19,7 +19,7 @@
      2^ceil(d/2) rounds for d >= 6 (C07_shirokov_partial assumes the break), and "ZeroDivisionError
      only for singular operands" beyond d = 4.  Custom bases with non-ascending spellings follow from
      the d <= 4 statements by the C14 relabelling isomorphism (Theory/Relabel.v); not composed here. *)
-From Coq Require Import List ZArith QArith Ring_theory.
+From Coq Require Import List ZArith QArith Qcanon Ring_theory.
 From KV Require Import Model.All Model.Inverse Theory.WF Theory.Sparse Theory.Ops Theory.OpsWF
   Theory.Algebra Theory.Inverse Theory.Hitzer.
 Import ListNotations.
@@ -229,6 +229,40 @@ Print Assumptions C07_inv_default_le4.
 Print Assumptions C07_power_supply.
 Print Assumptions C07_shirokov_partial.
 Print Assumptions C07_inv_shirokov_partial.
+
+(* the instance "fractions": exact coefficients, numeric path, every default basis up to 4-D — no hypothesis left *)
+Theorem C07_inv_default_le4_fractions : forall sig start g,
+  (length sig <= 4)%nat -> Forall (fun s => s = 1 \/ s = -1 \/ s = 0) sig ->
+  (start = 0 \/ start = 1 \/ start = 2) ->
+  let A := mk_default sig start g in
+  forall (x r : mv Qc), wfmv A x ->
+  inv_model Qcops Qcdiv Qcisz (fun z => z) A x = Ok r ->
+  Sparse.equiv (Q2Qc 0) (Q2Qc 1) Qcplus Qcmult Qcminus Qcopp (gp Qcops A x r) (Algebra.one (Q2Qc 1))
+  /\ Sparse.equiv (Q2Qc 0) (Q2Qc 1) Qcplus Qcmult Qcminus Qcopp (gp Qcops A r x) (Algebra.one (Q2Qc 1)).
+Proof.
+  intros sig start g Hl Hs Hst A x r Hx.
+  exact (C07_inv_default_le4 Qc (Q2Qc 0) (Q2Qc 1) Qcplus Qcmult Qcminus Qcopp Qcrt Qcdiv Qcisz sig start g Hl Hs Hst
+           (fun z => z) (C07_filter_numeric Qc (Q2Qc 0) (Q2Qc 1) Qcplus Qcmult Qcminus Qcopp _) x r Hx Qc_div_inverts).
+Qed.
+Print Assumptions C07_inv_default_le4_fractions.
+(* ... and ZeroDivisionError exactly for the operands without inverse *)
+Theorem C07_inv_default_le4_fractions_complete : forall sig start g,
+  (length sig <= 4)%nat -> Forall (fun s => s = 1 \/ s = -1 \/ s = 0) sig ->
+  (start = 0 \/ start = 1 \/ start = 2) ->
+  let A := mk_default sig start g in
+  let eqv := Sparse.equiv (Q2Qc 0) (Q2Qc 1) Qcplus Qcmult Qcminus Qcopp in
+  forall x : mv Qc, wfmv A x ->
+  ((exists y, wfmv A y /\ eqv (gp Qcops A x y) (Algebra.one (Q2Qc 1)) /\ eqv (gp Qcops A y x) (Algebra.one (Q2Qc 1)))
+     <-> exists r, inv_model Qcops Qcdiv Qcisz (fun z => z) A x = Ok r)
+  /\ (~ (exists y, wfmv A y /\ eqv (gp Qcops A x y) (Algebra.one (Q2Qc 1)) /\ eqv (gp Qcops A y x) (Algebra.one (Q2Qc 1)))
+     <-> inv_model Qcops Qcdiv Qcisz (fun z => z) A x = Err EZeroDiv).
+Proof.
+  intros sig start g Hl Hs Hst A eqv x Hx.
+  destruct (default_le4_ok sig start g Hl Hs Hst) as (SH & Hasc & Hd).
+  exact (inv_le4_complete Qc (Q2Qc 0) (Q2Qc 1) Qcplus Qcmult Qcminus Qcopp Qcrt A SH Hasc Qcdiv Qcisz (fun z => z)
+           (filter_ok_id Qc (Q2Qc 0) (Q2Qc 1) Qcplus Qcmult Qcminus Qcopp A) Hd x Hx Qc_one_neq_zero Qc_isz_exact Qc_div_inverts).
+Qed.
+Print Assumptions C07_inv_default_le4_fractions_complete.
 
 (* non-vacuity: the hypotheses hold for concrete algebras, and the model computes *)
 Example C07_ex_default_ok : default_ok (mk_default [1; -1; 0] 1 false) = true.
